@@ -15,7 +15,7 @@
 //!   NETAT <delay_ms> <packet> [; ..]*     the broker will write these packets <delay_ms> from now
 //!   (LNEW takes an optional third argument: pending_throttle in ms)
 //!   FINISH                                EventLoop::clean(), then print what the client still holds
-//! Answers: OK | EVENT <event> WIRE[<packets the broker received>] | ERROR <kind> WIRE[..] | IDLE WIRE[..]
+//! Answers: OK | EVENT <event> WIRE[<packets the broker received>] | ERROR <kind> WIRE[..] | IDLE WIRE[..] | PANIC WIRE[..] (poll() panicked)
 //!          | HELD [<requests>]
 use futures_util::FutureExt;
 use rumqttc::verif::{set_connector, AsyncReadWrite, Network};
@@ -867,10 +867,18 @@ enum Lp {
 }
 
 /// one EventLoop::poll(), answered as text
+/// a panic inside poll() (dev profile: arithmetic overflow, index out of range) is answered PANIC
 async fn poll_s(lp: &mut Lp) -> Result<String, String> {
+    use std::panic::AssertUnwindSafe;
     match lp {
-        Lp::V4(_, el) => el.poll().await.map(|e| event_s(&e)).map_err(|e| error_s(&e)),
-        Lp::V5(_, el) => el.poll().await.map(|e| t5::event_s(&e)).map_err(|e| t5::conn_error_s(&e)),
+        Lp::V4(_, el) => match AssertUnwindSafe(el.poll()).catch_unwind().await {
+            Ok(r) => r.map(|e| event_s(&e)).map_err(|e| format!("ERROR {}", error_s(&e))),
+            Err(_) => Err("PANIC".to_string()),
+        },
+        Lp::V5(_, el) => match AssertUnwindSafe(el.poll()).catch_unwind().await {
+            Ok(r) => r.map(|e| t5::event_s(&e)).map_err(|e| format!("ERROR {}", t5::conn_error_s(&e))),
+            Err(_) => Err("PANIC".to_string()),
+        },
     }
 }
 
@@ -999,7 +1007,7 @@ async fn run() {
                     match r {
                         None => "IDLE".to_string(),
                         Some(Ok(e)) => format!("EVENT {e}"),
-                        Some(Err(e)) => format!("ERROR {e}"),
+                        Some(Err(e)) => e,
                     }
                 };
                 let w = broker.borrow_mut().received();
@@ -1092,7 +1100,7 @@ async fn run() {
                 let head = match r {
                     Err(_) => "IDLE".to_string(),
                     Ok(Ok(e)) => format!("EVENT {e}"),
-                    Ok(Err(e)) => format!("ERROR {e}"),
+                    Ok(Err(e)) => e,
                 };
                 let w = broker.borrow_mut().received();
                 format!("{} WIRE[{}]", head, w.join(" "))
